@@ -589,13 +589,13 @@ OPT_FRACTION = 0.2
 
 def _optimized_interpreter_run(prop_id, tier, seed, only_part, ev):
     """the same check once more, at OPT_FRACTION of its size, in an interpreter that strips assert statements
-    (PYTHONOPTIMIZE=1 / python -O) - an interpreter mode, not an input: what a property promises does not depend on it.
+    and docstrings (PYTHONOPTIMIZE=2 / python -OO) - an interpreter mode, not an input: what a property promises does not depend on it.
     Its violations are this check's violations; its counts are added to the evidence under coverage.optimized_interpreter_run"""
     import subprocess
     import tempfile
     tmp = tempfile.mkdtemp(prefix="verif_pyO_")
     try:
-        env = dict(os.environ, PYTHONOPTIMIZE="1", VERIF_OPT_CHILD="1", VERIF_EVIDENCE_DIR=tmp, VERIF_SEED=str(seed),
+        env = dict(os.environ, PYTHONOPTIMIZE="2", VERIF_OPT_CHILD="1", VERIF_EVIDENCE_DIR=tmp, VERIF_SEED=str(seed),
                    VERIF_EXAMPLES_SCALE=str(SCALE * OPT_FRACTION))
         cmd = [sys.executable, os.path.join(VERIF, "run_check.py"), prop_id, "--tier", tier]
         if only_part:
@@ -611,7 +611,7 @@ def _optimized_interpreter_run(prop_id, tier, seed, only_part, ev):
                 print(ln.replace(" bucket=", " [python -O] bucket=", 1))
             elif ln.startswith("# %s tier=" % prop_id):
                 summary = ln
-        info = {"interpreter": "PYTHONOPTIMIZE=1", "fraction_of_cases": OPT_FRACTION, "violations": 1 if r.returncode else 0}
+        info = {"interpreter": "PYTHONOPTIMIZE=2", "fraction_of_cases": OPT_FRACTION, "violations": 1 if r.returncode else 0}
         try:
             with open(os.path.join(tmp, prop_id + ".json")) as f:
                 ce = json.load(f)
